@@ -223,6 +223,7 @@ def helpers(prog, an, rep):
                  'bypass_author_approval'):
         common.bypass_helper(prog, an, rep, name, 'C04')
     common.author_bypass_keyed_by_pr_author(prog, an, rep, 'C04')
+    common.per_author_options(prog, an, rep, 'C04')
     opts, _ = common.reactor_registry(prog, an)
     for name in ('bypass_peer_approval', 'bypass_leader_approval',
                  'bypass_author_approval', 'approve', 'unanimity'):
